@@ -414,6 +414,66 @@ pub fn run(ctx: &Ctx) -> i32 {
                 .extra("deviation_bound_completed", json!(fbound)),
         );
     }
+    // ---- inputs that are NOT well formed: whatever the verdict, it must not depend on how the source delivers the bytes
+    {
+        let mut inputs: Vec<(String, Vec<u8>)> = vec![];
+        let good_main = RawHeader::layout(&[(1000, Val::str("n")), (1003, Val::Int32(vec![7]))]);
+        let good_sig = RawHeader::new(vec![RawEntry { tag: 1004, ty: 7, offset: 0, count: 4 }], vec![1, 2, 3, 4]);
+        for in_sig in [true, false] {
+            for store_len in [3usize, 4, 5, 8, 9, 15, 16] {
+                let store: Vec<u8> = (0..store_len).map(|i| b'a' + (i % 26) as u8).collect(); // no NUL anywhere
+                let l = store_len as i32;
+                let entries: Vec<(&str, RawEntry)> = vec![
+                    ("string running to the last byte of the section without terminator", RawEntry { tag: 1000, ty: 6, offset: 0, count: 1 }),
+                    ("string starting at the last byte", RawEntry { tag: 1000, ty: 6, offset: l - 1, count: 1 }),
+                    ("string array of two items without terminators", RawEntry { tag: 1000, ty: 8, offset: 0, count: 2 }),
+                    ("binary one byte longer than the section", RawEntry { tag: 1000, ty: 7, offset: 0, count: store_len as u32 + 1 }),
+                    ("binary ending 8 bytes behind the section", RawEntry { tag: 1000, ty: 7, offset: 0, count: store_len as u32 + 8 }),
+                    ("int32 array one item beyond the section", RawEntry { tag: 1000, ty: 4, offset: 0, count: store_len as u32 / 4 + 1 }),
+                    ("int16 at the last byte", RawEntry { tag: 1000, ty: 3, offset: l - 1, count: 1 }),
+                    ("offset equal to the section length", RawEntry { tag: 1000, ty: 6, offset: l, count: 1 }),
+                    ("offset 7 bytes behind the section", RawEntry { tag: 1000, ty: 2, offset: l + 7, count: 1 }),
+                ];
+                for (what, e) in entries {
+                    let h = RawHeader::new(vec![e], store.clone());
+                    let x = if in_sig { assemble(&RawLead::new("n"), &h, 0, &good_main, b"payload").0 } else { assemble(&RawLead::new("n"), &good_sig, 0, &h, b"payload").0 };
+                    inputs.push((format!("{} header, {}-byte data section, {}", if in_sig { "signature" } else { "main" }, store_len, what), x));
+                }
+            }
+        }
+        let mut acc = Acc::new();
+        for (i, (what, x)) in inputs.iter().enumerate() {
+            let outcome = |r: Result<Result<rpm::Package, rpm::Error>, vlib::report::Panic>| -> String {
+                match r {
+                    Err(p) => format!("panic at {}", p.location()),
+                    Ok(Err(_)) => "Err".into(),
+                    Ok(Ok(p)) => {
+                        let mut o = vec![];
+                        let _ = p.write(&mut o);
+                        format!("Ok({})", crate::oracles::sha256_hex(&o))
+                    }
+                }
+            };
+            let mut seen: Vec<(String, String)> = vec![];
+            seen.push(("a slice".into(), outcome(catch(|| rpm::Package::parse(&mut &x[..])))));
+            seen.push(("BufReader with the default buffer".into(), outcome(catch(|| rpm::Package::parse(&mut std::io::BufReader::new(&x[..]))))));
+            for k in [1usize, 2, 3, 5, 7, 8, 16, 48, 100, 1000] {
+                seen.push((format!("at most {} byte(s) per fill_buf", k), outcome(catch(|| rpm::Package::parse(&mut Source { data: x, pos: 0, window: 0, mode: SrcMode::Fixed(k) })))));
+            }
+            acc.evals += 1;
+            acc.nontrivial += 1;
+            acc.count(&seen[0].1.split('(').next().unwrap_or("").to_string());
+            let first = seen[0].1.clone();
+            if let Some((how, other)) = seen.iter().find(|(_, o)| *o != first) {
+                acc.viol(
+                    Violation::new("read-malformed", format!("{}: parsed from a slice the result is {}, from a source delivering {} it is {}", what, first, how, other), json!({"input": what, "bytes_hex": vlib::hex(x), "outcomes": seen}))
+                        .sig("clause", "chunking-changes-result")
+                        .rank(i as u64),
+                );
+            }
+        }
+        reports.push(SubReport::new("read-malformed", "A", &format!("{} inputs whose signature or main header holds one item that does not fit its data section (unterminated strings at the section's end, arrays and binaries running 1 … 8 bytes over, offsets at and behind the end; data sections of 3 … 16 bytes so that every padding occurs), each parsed from a slice, from a default BufReader and from sources delivering at most 1, 2, 3, 5, 7, 8, 16, 48, 100, 1000 bytes per call: whatever the verdict (error, or a package), it must be the same for every source", inputs.len()), acc));
+    }
     // ---- sinks behind adapters: what has reached the destination after write() and flush() both returned Ok
     {
         use std::cell::RefCell;
